@@ -310,6 +310,21 @@ Section Red.
   (* ---- offset and range queries (node.rs token_at_offset / covering_element) ---- *)
   Inductive tao_res := TNone | TSingle (t : pos) | TBetween (l r : pos).
 
+  (* the TokenAtOffset helper (utility_types.rs): left / right bias, Iterator::next (mem::replace), size_hint *)
+  Definition tao_left (x : tao_res) : option pos := match x with TNone => None | TSingle t => Some t | TBetween l _ => Some l end.
+  Definition tao_right (x : tao_res) : option pos := match x with TNone => None | TSingle t => Some t | TBetween _ r => Some r end.
+  Definition tao_next (x : tao_res) : option pos * tao_res :=
+    match x with TNone => (None, TNone) | TSingle t => (Some t, TNone) | TBetween l r => (Some l, TSingle r) end.
+  Definition tao_size (x : tao_res) : nat := match x with TNone => 0 | TSingle _ => 1 | TBetween _ _ => 2 end.
+  (* calling next [fuel] times: the items yielded and the size reported before each call *)
+  Fixpoint tao_drain (fuel : nat) (x : tao_res) : list pos * list nat :=
+    match fuel with
+    | O => ([], [])
+    | S f => let '(r, x') := tao_next x in
+             let '(items, sizes) := tao_drain f x' in
+             (match r with Some t => t :: items | None => items end, tao_size x :: sizes)
+    end.
+
   (* materialise all children of the node e at p through the element iterator *)
   Fixpoint goa_all (cs : list gelem) (par : pos) (i : nat) (o : N) (rs : rstate) : rstate :=
     match cs with
